@@ -204,7 +204,96 @@ func TestReplay(t *testing.T) {{
     return ("CONFIRMED on the real code: " + mm.group(1)) if mm else None
 
 
+def bigvals(query, names):
+    """values of *big.Int parameters (entry state) in one model; None for a nil parameter"""
+    bv = heap(query, "BV")
+    syms = [sym(query, "p_" + n) for n in names]
+    if bv is None or None in syms:
+        return None
+    v = get_values(query, syms + [f"(select {bv} {x})" for x in syms])
+    if v is None or None in v:
+        return None
+    k = len(names)
+    return [None if v[i] == 0 else v[k + i] for i in range(k)]
+
+
+def mod_inverse(query, ob):
+    v = bigvals(query, ["a", "n"])
+    if not v or None in v or v[1] == 0:
+        return None
+    a, n = v
+    src = f"""package common
+import ("testing"; gobig "math/big"; "github.com/privacybydesign/gabi/big")
+func TestReplay(t *testing.T) {{
+	bi := func(s string) *big.Int {{ x, _ := new(big.Int).SetString(s, 10); return x }}
+	a, n := bi("{a}"), bi("{n}")
+	ia, ok := ModInverse(a, n)
+	g := new(gobig.Int).GCD(nil, nil, new(gobig.Int).Abs(a.Go()), new(gobig.Int).Abs(n.Go()))
+	want := g.Cmp(gobig.NewInt(1)) == 0
+	if ok != want {{ t.Errorf("REPLAY-MISMATCH ModInverse(%v, %v) reports ok=%v but gcd is %v", a, n, ok, g); return }}
+	if !ok {{ if ia != nil {{ t.Errorf("REPLAY-MISMATCH ModInverse(%v, %v) returned %v without an inverse", a, n, ia) }}; return }}
+	r := new(gobig.Int).Mul(a.Go(), ia.Go()); r.Sub(r, gobig.NewInt(1)); r.Mod(r, new(gobig.Int).Abs(n.Go()))
+	if r.Sign() != 0 {{ t.Errorf("REPLAY-MISMATCH ModInverse(%v, %v) = %v, but a*ia-1 is not divisible by n", a, n, ia) }}
+}}
+"""
+    out = run_go("internal/common", src, "TestReplay")
+    mm = re.search(r"REPLAY-MISMATCH (.*)", out)
+    return ("CONFIRMED on the real code: " + mm.group(1)) if mm else None
+
+
+def mod_pow(query, ob):
+    v = bigvals(query, ["x", "y", "m"])
+    if not v or None in v or v[2] == 0:
+        return None
+    x, y, m = v
+    if abs(y) > 10**6 and abs(m).bit_length() > 4096:
+        return None
+    src = f"""package common
+import ("testing"; gobig "math/big"; "github.com/privacybydesign/gabi/big")
+func TestReplay(t *testing.T) {{
+	bi := func(s string) *big.Int {{ x, _ := new(big.Int).SetString(s, 10); return x }}
+	x, y, m := bi("{x}"), bi("{y}"), bi("{m}")
+	r, err := ModPow(x, y, m)
+	am := new(gobig.Int).Abs(m.Go())
+	base := new(gobig.Int).Mod(x.Go(), am)
+	var want *gobig.Int
+	if y.Sign() >= 0 {{
+		want = new(gobig.Int).Exp(base, y.Go(), am)
+	}} else if inv := new(gobig.Int).ModInverse(base, am); inv != nil {{
+		want = new(gobig.Int).Exp(inv, new(gobig.Int).Neg(y.Go()), am)
+	}}
+	if want == nil {{ if err == nil {{ t.Errorf("REPLAY-MISMATCH ModPow(%v, %v, %v) = %v although the base has no inverse", x, y, m, r) }}; return }}
+	if err != nil || r == nil || r.Go().Cmp(want) != 0 {{ t.Errorf("REPLAY-MISMATCH ModPow(%v, %v, %v) = %v, %v; the correct value is %v", x, y, m, r, err, want) }}
+}}
+"""
+    out = run_go("internal/common", src, "TestReplay")
+    mm = re.search(r"REPLAY-MISMATCH (.*)", out)
+    return ("CONFIRMED on the real code: " + mm.group(1)) if mm else None
+
+
+def probably_safe_prime(query, ob):
+    v = bigvals(query, ["x"])
+    if not v or None in v or abs(v[0]).bit_length() > 4096:
+        return None
+    src = f"""package safeprime
+import ("testing"; "github.com/privacybydesign/gabi/big")
+func TestReplay(t *testing.T) {{
+	x, _ := new(big.Int).SetString("{v[0]}", 10)
+	got := ProbablySafePrime(x, 40)
+	half := new(big.Int).Rsh(x, 1)
+	want := x.Cmp(big.NewInt(2)) > 0 && x.ProbablyPrime(40) && half.ProbablyPrime(40)
+	if got != want {{ t.Errorf("REPLAY-MISMATCH ProbablySafePrime(%v) = %v, expected %v", x, got, want) }}
+}}
+"""
+    out = run_go("safeprime", src, "TestReplay")
+    mm = re.search(r"REPLAY-MISMATCH (.*)", out)
+    return ("CONFIRMED on the real code: " + mm.group(1)) if mm else None
+
+
 HANDLERS = {
+    "internal/common.ModInverse": mod_inverse,
+    "internal/common.ModPow": mod_pow,
+    "safeprime.ProbablySafePrime": probably_safe_prime,
     "(revocation.Hash).Equal": hash_equal,
     "(*rangeproof.Proof).ProvesStatement": proves_statement,
     "(rangeproof.StatementType).Sign": statement_sign,
